@@ -148,3 +148,19 @@ Proof.
   unfold sm_map. pose proof (dev_map_next c m mem) as H. destruct (dev_map c m mem) as (m1 & code).
   destruct (SyncMem.do_map _ _ _) as ((s' & r) & cs). cbn in *. destruct cs; auto.
 Qed.
+
+(* resources do not touch memory objects *)
+Lemma dev_create_res_same m image kind req : mach_same m (fst (fst (dev_create_res m image kind req))).
+Proof.
+  unfold dev_create_res. destruct (dev_fault _ _ _) as ((f1 & fired1) & r). destruct (negb _); [ms_triv|].
+  destruct (DEV_TABLE <=? _); ms_triv.
+Qed.
+Lemma dev_destroy_res_same m image id : mach_same m (dev_destroy_res m image id).
+Proof. unfold dev_destroy_res. ms_triv. Qed.
+Lemma dev_requirements_same m image id : mach_same m (fst (dev_requirements m image id)).
+Proof. unfold dev_requirements. ms_triv. Qed.
+Lemma dev_bind_same m image res mem off : mach_same m (fst (dev_bind m image res mem off)).
+Proof.
+  unfold dev_bind. destruct (find_res _ _); [|ms_triv]. destruct (find_mem _ _); [|ms_triv].
+  destruct (dev_fault _ _ _) as ((f1 & fired1) & r). destruct (negb _); ms_triv.
+Qed.
